@@ -114,7 +114,9 @@ def dispatch (fn : String) (args : List String) (impl : String) : Option Verdict
                 -- length form): the property demands exactly this frame
                 if f.length == f.payload.length && isPrefix (Spec.rfc6455Layout f) flat
                 then some (impl == m) else none
-              | _ => none
+              -- the bytes supplied are not a whole frame (the model's decoder, proved total with truncation = read error,
+              -- says so): an implementation that returns a frame anyway has invented one
+              | _ => if impl.startsWith "ERR:" then none else some false
           else none
         | _ => if cs.all (fun c => !c.isEmpty) then some (impl == "ERR:ReadError") else none
       some { model := m, spec := spec }
